@@ -32,3 +32,131 @@ package region
 //@   loop 3 invariant aComma == bComma && aComma <= i && i <= length
 //@   loop 3 invariant forall(k, fcomma(a)+1 <= k && k < i, a[k] == b[k])
 //@   loop 3 decreases length - i
+
+// ---- block-compressed cellblock streams (C11: safety and termination; C15: framing) ----
+
+//@ func region.min
+//@   modifies nothing
+//@   panics never[C15]
+//@   ensures[C15] (x < y ==> r0 == x) && (x >= y ==> r0 == y)
+
+//@ func region.readN
+//@   requires n >= 0
+//@   modifies nothing
+//@   panics never[C11,C15]
+//@   ensures[C11,C15] (r2 == nil) == (len(b) >= n)
+//@   ensures[C11,C15] r2 == nil ==> sameslice(r0, b[:n]) && sameslice(r1, b[n:])
+
+//@ func region.readUint32
+//@   modifies nothing
+//@   panics never[C11,C15]
+//@   ensures[C11,C15] (r2 == nil) == (len(b) >= 4)
+//@   ensures[C11,C15] r2 == nil ==> r0 == be32(b) && sameslice(r1, b[4:])
+
+//@ func region.(*compressor).decompressCellblocks
+//@   modifies nothing
+//@   panics never[C11]
+//@   loop 1 invariant[C11] len(b) >= 0
+//@   loop 1 decreases[C11] len(b)
+//@   loop 2 invariant[C11] len(b) >= 0 && len(b) < variant(1)
+//@   loop 2 decreases[C11] len(b)
+
+// ---- hbase:meta row parsing (C11) ----
+
+//@ func region.NewInfo
+//@   modifies nothing
+//@   ensures r0 != nil
+
+//@ func region.infoFromCell
+//@   requires cell != nil
+//@   modifies nothing
+//@   panics never[C11]
+//@   ensures[C11] (r1 == nil) == (r0 != nil)
+
+//@ func region.ParseRegionInfo
+//@   requires metaRow != nil
+//@   requires forall(k, 0 <= k && k < len(metaRow.Cells), metaRow.Cells[k] != nil)
+//@   panics never[C11]
+
+// ---- multi-requests: index mapping and response validation (C11, C02, C03) ----
+
+// The calls batched into a multi are the client's own batchable call types (SendBatch and QueueRPC admit only
+// hrpc.Batchable calls: *hrpc.Get and *hrpc.Mutate); dropped calls are nil.
+//@ pred region.multiWF(m) = forall(k, 0 <= k && k < len(m.calls), m.calls[k] == nil || typeis(m.calls[k], "*hrpc.Get") || typeis(m.calls[k], "*hrpc.Mutate"))
+// A result entry names, by 1-based index, a call of the batch that is still there.
+//@ pred region.roeOK(m, roe) = 1 <= roe.GetIndex() && roe.GetIndex() <= len(m.calls) && m.calls[roe.GetIndex()-1] != nil
+//@ pred region.rarOK(m, rar) = rar.GetException() == nil ==> forall(j, 0 <= j && j < len(rar.GetResultOrException()), roeOK(m, rar.GetResultOrException()[j]))
+//@ pred region.multiRespOK(m, mr) = len(mr.GetRegionActionResult()) <= len(m.regions) && forall(k, 0 <= k && k < len(mr.GetRegionActionResult()), rarOK(m, mr.GetRegionActionResult()[k]))
+
+//@ func region.(*multi).get
+//@   requires 1 <= i && i <= len(m.calls)
+//@   modifies nothing
+//@   panics never[C11,C02]
+//@   ensures[C02] r0 == m.calls[i-1]
+
+//@ func region.canDeserializeCellBlocks.DeserializeCellBlocks(m, b) (n, err)
+//@   requires typeis(recv, "*region.multi") ==> typeis(m, "*pb.MultiResponse") && multiWF(cast(recv, "*region.multi")) && multiRespOK(cast(recv, "*region.multi"), cast(m, "*pb.MultiResponse"))
+//@   requires typeis(recv, "*hrpc.Get") ==> typeis(m, "*pb.GetResponse")
+//@   requires typeis(recv, "*hrpc.Mutate") ==> typeis(m, "*pb.MutateResponse")
+//@   requires typeis(recv, "*hrpc.Scan") ==> typeis(m, "*pb.ScanResponse")
+//@   modifies F.pb.Result.Cell, F.pb.GetResponse.Result, F.pb.MutateResponse.Result, F.pb.ScanResponse.Results, M.*pb.Result
+//@   ensures err == nil ==> n <= len(b)
+
+//@ func region.(*multi).checkResponse
+//@   requires multiWF(m)
+//@   modifies nothing
+//@   panics never[C11]
+//@   ensures[C11,C02] r0 == nil ==> typeis(msg, "*pb.MultiResponse") && multiRespOK(m, cast(msg, "*pb.MultiResponse"))
+//@   loop 1 invariant len(seen) == len(m.calls)
+//@   loop 1 invariant forall(k, 0 <= k && k < i, rarOK(m, rars[k]))
+//@   loop 2 invariant len(seen) == len(m.calls)
+//@   loop 3 invariant len(seen) == len(m.calls)
+//@   loop 3 invariant forall(k, 0 <= k && k < idx3, roeOK(m, rar.GetResultOrException()[k]))
+//@   loop 4 invariant len(seen) == len(m.calls)
+
+//@ func region.(*multi).DeserializeCellBlocks
+//@   requires typeis(msg, "*pb.MultiResponse")
+//@   requires multiWF(m) && multiRespOK(m, cast(msg, "*pb.MultiResponse"))
+//@   modifies F.pb.Result.Cell, F.pb.GetResponse.Result, F.pb.MutateResponse.Result, F.pb.ScanResponse.Results, M.*pb.Result
+//@   panics never[C11]
+//@   ensures[C11] r1 == nil ==> r0 <= len(b)
+//@   loop 1 invariant nread <= len(b)
+//@   loop 2 invariant nread <= len(b)
+
+// ---- region client: sent-calls table, in-flight counter, response dispatch ----
+
+//@ func region.(*client).unregisterRPC
+//@   modifies D.map[uint32]hrpc.Call, C.map[uint32]hrpc.Call
+//@   panics never[C11,C02,C03]
+//@   ensures[C02,C03] r0 == old(c.sent[id])
+//@   ensures[C02,C03] c.sent[id] == nil
+//@   ensures[C02,C03] forall(k, k != id ==> c.sent[k] == old(c.sent[k]))
+
+//@ func region.returnResult
+//@   requires c != nil
+//@   requires typeis(c, "*region.multi") && err == nil ==> typeis(msg, "*pb.MultiResponse") && multiWF(cast(c, "*region.multi")) && multiRespOK(cast(c, "*region.multi"), cast(msg, "*pb.MultiResponse")) && pbwf()
+//@   panics never[C11]
+
+//@ func region.exceptionToError
+//@   modifies nothing
+//@   panics never[C11]
+//@   ensures[C11] r0 != nil
+
+//@ func region.(*client).inFlightDown
+//@   modifies F.region.client.inFlight
+
+// every multi registered in the sent-calls table was built from batchable calls
+//@ pred region.sentWF(c) = forall(k, typeis(c.sent[k], "*region.multi") ==> multiWF(cast(c.sent[k], "*region.multi")))
+
+//@ func region.(*client).receive
+//@   requires c.sent != nil && sentWF(c)
+//@   panics never[C11]
+
+//@ func region.freeMulti
+//@   requires m != nil
+//@   modifies F.region.multi.*, M.hrpc.Call
+//@   panics never[C11]
+
+//@ func region.(*multi).returnResults
+//@   requires err == nil ==> typeis(msg, "*pb.MultiResponse") && multiWF(m) && multiRespOK(m, cast(msg, "*pb.MultiResponse")) && pbwf()
+//@   panics never[C11]
